@@ -581,8 +581,7 @@ class RemoteStreamFlowPath(
         return self._inner_path
 
     def _make_child_relpath(self, part):
-        parts = self._tail
-        return self._from_parsed_parts(self._drv, self._root, parts)
+        return self.with_segments(self, part)
 
     async def _test(self, command: list[str]) -> bool:
         command = ["test"] + command
